@@ -1,6 +1,6 @@
 use crate::diagnostic_emitter::MosResult;
 use crate::impl_request_handler;
-use crate::lsp::{to_location, LspContext, RequestHandler};
+use crate::lsp::{character_to_byte_index, to_location, LspContext, RequestHandler};
 use itertools::Itertools;
 use lsp_types::request::{PrepareRenameRequest, Rename};
 use lsp_types::{
@@ -33,7 +33,15 @@ impl RequestHandler<PrepareRenameRequest> for PrepareRenameRequestHandler {
             let source_column = params.position.character as usize;
 
             if let Some(source_file) = codegen.tree().files.get(file_path) {
+                if source_line >= source_file.file.num_lines() {
+                    // The client is ahead of (or behind) what we know about this document
+                    return Ok(None);
+                }
                 let line = source_file.file.source_line(source_line);
+
+                // The client's position counts characters: a column beyond the end of the line is the end of the line
+                let source_character = params.position.character as usize;
+                let source_column = character_to_byte_index(line, source_character);
 
                 // Try to find the start of identifier under the cursor
                 let start = line[..source_column]
@@ -63,7 +71,7 @@ impl RequestHandler<PrepareRenameRequest> for PrepareRenameRequestHandler {
                         file_path.to_str().unwrap(),
                         LineCol {
                             line: source_line,
-                            column: source_column,
+                            column: line[..source_column].chars().count(),
                         },
                     )
                     .is_empty()
@@ -72,11 +80,11 @@ impl RequestHandler<PrepareRenameRequest> for PrepareRenameRequestHandler {
                     let range = lsp_types::Range {
                         start: lsp_types::Position {
                             line: source_line as u32,
-                            character: start as u32,
+                            character: line[..start].chars().count() as u32,
                         },
                         end: lsp_types::Position {
                             line: source_line as u32,
-                            character: end as u32,
+                            character: line[..end].chars().count() as u32,
                         },
                     };
                     return Ok(Some(PrepareRenameResponse::Range(range)));
